@@ -130,6 +130,10 @@ def main(argv=None) -> int:
     reported_known = set()
     lines = []
     pending_ctx = []
+    # re-executing counterexamples is a courtesy (determinism check), bounded in total CPU time: what does not fit is
+    # reported as found by the exploration
+    replay_budget = float(os.environ.get("VERIF_REPLAY_BUDGET", "600"))
+    replay_t0 = time.process_time()
     for key, v in classes.items():
         f = kf.match(known, v)
         if f is not None:
@@ -146,13 +150,16 @@ def main(argv=None) -> int:
                     env.install_watchdog()
                     # CPU-time limit on a timer of its own (the per-step watchdogs inside use ITIMER_REAL)
                     signal.signal(signal.SIGVTALRM, _replay_timeout)
-                    signal.setitimer(signal.ITIMER_VIRTUAL, float(os.environ.get("VERIF_REPLAY_TIMEOUT", "600")))
+                    left = replay_budget - (time.process_time() - replay_t0)
+                    if left <= 5:
+                        raise env.StepTimeout()
+                    signal.setitimer(signal.ITIMER_VIRTUAL, min(float(os.environ.get("VERIF_REPLAY_TIMEOUT", "180")), left))
                     try:
                         again = mod.replay(json.loads(json.dumps(_jsonable(v))))
                     finally:
                         signal.setitimer(signal.ITIMER_VIRTUAL, 0)
                 except env.StepTimeout:
-                    again = "error: re-executing the counterexample did not terminate"
+                    again = "error: re-executing the counterexample did not fit the time budget"
                 except Exception:
                     again = "error:" + traceback.format_exc()
                 if again is None and any(w in key for w in ("nonterm", "hang", "timeout")):
